@@ -142,9 +142,9 @@ class BaseComponent(Component):
         the input topic of the component and calls back to handle_input, and a state
         producer to produce Interrupt, Output or ComponentException messages.
         """
+        self.state_producer = state_producer()
         self.state_consumer = state_consumer(self.handle_input)
         await self.state_consumer.subscribe([input_topic(self.name)])
-        self.state_producer = state_producer()
 
     @abstractmethod
     async def on_tick(self, time: SimTime, changes: Changes):
